@@ -211,6 +211,7 @@ def make_namedtuple(eng, nt, args, kwargs):
 
 
 TABLE = {
+    'traceback.format_exc': lambda e, a, k, n: 'traceback',
     'collections.namedtuple': col_namedtuple,
     'numpy.ceil': np_ceil, 'numpy.floor': np_floor, 'math.ceil': math_ceil, 'math.floor': math_floor,
     'itertools.chain': it_chain, 'itertools.product': it_product, 'itertools.combinations': it_combinations,
